@@ -136,8 +136,10 @@ def check_case(case):
 
 def states_for(tier, ns, nc):
     n = ns * nc
-    if n <= 3:
+    if n <= 2 or (n == 3 and tier == "thorough"):
         al = ALPHA
+    elif n == 3:
+        al = [0.0, 0.25, 0.5, 1.0, 1.75, 100.0, 1000.0]
     elif n == 4:
         al = [0.0, 0.25, 0.5, 1.0, 1.75, 2.0, 99.5, 100.0] if tier == "thorough" else [0.0, 0.25, 0.5, 1.0, 1.75, 100.0]
     else:
@@ -163,7 +165,9 @@ def gen_cases(tier, seed0):
     for (ns, nc) in ((1, 1), (1, 3), (2, 2), (2, 3), (3, 2)):
         for sti, st in enumerate(states_for(tier, ns, nc)):
             for gtype in (("grid", "graph") if tier == "thorough" else (("grid", "graph")[sti % 2],)):
-                for engine, isp in combos:
+                for ci, (engine, isp) in enumerate(combos):
+                    if tier == "quick" and ns * nc >= 4 and (sti + ci) % 2:
+                        continue     # quick tier: every state of the larger shapes sees every second combination (alternating)
                     if isp == "none" and engine != "euler" and any(v != math.floor(v) for v in st):
                         continue     # not a molecular state: 'none' on a stochastic engine is only meaningful for integers
                     for sd in (seeds if not (engine == "euler" and isp in ("auto", "none")) else seeds[:1]):
